@@ -90,6 +90,8 @@ fn err_class(msg: &str) -> String {
         format!("err extender {}", num_after("line "))
     } else if msg.contains("exit code provided multiple times") {
         format!("err exit-code-twice {}", num_after("line "))
+    } else if msg.contains("exit code given") {
+        format!("err exit-code-without-command {}", num_after("line "))
     } else if msg.contains("no shell expression specified") {
         format!("err no-shell-expression {}", num_after("line "))
     } else if msg.contains("parsing line ") {
@@ -193,6 +195,8 @@ pub fn make_op(text: &str, real: &Real) -> String {
     let mut test_tab: Vec<String> = vec![format!("none:{}", test_cfg_value(None, &doc))];
     let mut seen = std::collections::HashSet::new();
     for l in &lines {
+        // white space after the closing brace is ignored by the fence recogniser
+        let l = l.trim_end();
         if l.ends_with('}') {
             for (k, ch) in l.char_indices() {
                 if ch == '{' && k + 1 < l.len() - 1 {
@@ -332,7 +336,8 @@ const BODY: &[&str] = &["print('x')", "$ fake command", "", "```scrut", "```", "
 fn gen_block(rng: &mut Rng, with_cmd: bool) -> Block {
     let ticks = if rng.chance(1, 4) { rng.range(4, 5) } else { 3 };
     let config = if rng.chance(1, 3) { Some(rng.pick(CONFIGS).to_string()) } else { None };
-    let gap = if config.is_some() { rng.pick(GAPS).to_string() } else { String::new() };
+    // white space after the language is ignored, with or without configuration
+    let gap = if config.is_some() || rng.chance(1, 4) { rng.pick(GAPS).to_string() } else { String::new() };
     let comments = (0..if rng.chance(1, 3) { rng.range(1, 2) } else { 0 }).map(|_| rng.pick(COMMENTS).to_string()).collect();
     let mut cmd = vec![];
     let mut after = vec![];
@@ -434,7 +439,7 @@ pub fn render_items(items: &[Item]) -> Vec<String> {
                 }
             }
             Item::Scrut(b) => {
-                let cfg = b.config.as_ref().map(|c| format!("{}{{{}}}", b.gap, c)).unwrap_or_default();
+                let cfg = b.config.as_ref().map(|c| format!("{}{{{}}}", b.gap, c)).unwrap_or_else(|| b.gap.clone());
                 out.push(format!("{}scrut{}", "`".repeat(b.ticks), cfg));
                 out.extend(b.comments.iter().cloned());
                 for (i, c) in b.cmd.iter().enumerate() {
